@@ -101,9 +101,21 @@ func workerMain(args []string) {
 		b, _ := json.Marshal(res)
 		fmt.Fprintf(out, "END %d %s\n", run, b)
 		out.Flush()
+		if engine.Poisoned(res) {
+			// package-level state of this process is corrupted: later runs must
+			// not inherit it. The driver restarts a fresh worker after this run.
+			sb, _ := json.Marshal(engine.ProcessStats())
+			fmt.Fprintf(out, "STATS %s\n", sb)
+			fmt.Fprintf(out, "RESTART %d\n", run)
+			out.Flush()
+			os.Exit(3)
+		}
 	}
 	b, _ := json.Marshal(engine.ProcessStats())
 	fmt.Fprintf(out, "STATS %s\n", b)
+	if *wl == "c18" {
+		fmt.Fprintf(out, "PAIRS %x\n", engine.SitePairBitmap())
+	}
 }
 
 // execMain executes one plan file (replay / minimisation candidate).
